@@ -544,3 +544,106 @@ def exact_clauses(rep, rule, who, body, ir, table, floor=1, ok_variant="Ok"):
                    "; a comparison of that shape refuses on `%s` instead" % SYM[wrong[0][1]] if wrong else ""),
                body.loc(found[0][1]) if found else (body.loc(wrong[0][2]) if wrong else body.loc()))
     return rels
+
+
+# ------------------------------------------------------------------------------------------------------------
+# relations that hold at a block (exact operators), for role-based exactness rules
+_CALL_CMP = {"eq": "Eq", "ne": "Ne", "lt": "Lt", "le": "Le", "gt": "Gt", "ge": "Ge"}
+
+
+def _peel_refs(e):
+    while isinstance(e, tuple) and e and e[0] in ("ref", "deref", "unsize"):
+        e = e[2] if e[0] == "ref" else e[1]
+    return e
+
+
+def relation_of(e, truth):
+    """normalise one branch condition to (A, op, B) or ('bool', expr, truth)"""
+    neg = False
+    while e[0] == "un" and e[1] == "Not":
+        e, neg = e[2], not neg
+    t = truth != neg
+    if e[0] == "bin" and e[1] in NEGATE:
+        return (e[2], e[1] if t else NEGATE[e[1]], e[3])
+    if e[0] == "call" and len(e[2]) == 2:
+        last = e[1].split("::")[-1]
+        if last in _CALL_CMP and ("PartialEq" in e[1] or "PartialOrd" in e[1] or "cmp::" in e[1]):
+            op = _CALL_CMP[last]
+            return (_peel_refs(e[2][0]), op if t else NEGATE[op], _peel_refs(e[2][1]))
+    return ("bool", e, t)
+
+
+def holds_at(ir, bb):
+    """[(A, op, B) | ('bool', e, truth)]: every branch condition on the dominating edges of block bb, operators exact"""
+    out = []
+    for c, rel, v, edge, dty in ir.edge_conditions(bb):
+        t = None
+        if rel == "==" and v in (0, 1):
+            t = bool(v)
+        elif rel == "notin" and len(v) == 1 and v[0] in (0, 1):
+            t = not bool(v[0])
+        if t is None:
+            continue
+        out.append(relation_of(c, t))
+    return out
+
+
+def has_relation(rels, a_pred, op, b_pred):
+    """is `A op B` (either orientation, operator flipped accordingly) among the relations?"""
+    for r in rels:
+        if r[0] == "bool":
+            continue
+        a, o, b = r
+        if o == op and a_pred(a) and b_pred(b):
+            return True
+        if FLIP[o] == op and a_pred(b) and b_pred(a):
+            return True
+    return False
+
+
+def asserted_relations(body, ir):
+    """[(relation, line)]: what each assert!/panic! site of `body` demands -- the negation of the closest condition leading to it"""
+    out = []
+    for bi, t in body.calls():
+        if "panicking::" not in (t.get("callee") or ""):
+            continue
+        conds = ir.edge_conditions(bi)
+        if not conds:
+            continue
+        c, rel, v, edge, dty = conds[0]
+        tr = None
+        if rel == "==" and v in (0, 1):
+            tr = bool(v)
+        elif rel == "notin" and len(v) == 1 and v[0] in (0, 1):
+            tr = not bool(v[0])
+        if tr is None:
+            continue
+        out.append((relation_of(c, not tr), t.get("ln")))
+    return out
+
+
+def rel_text(r):
+    if r[0] == "bool":
+        return "%s is %s" % (_txt(r[1])[:70], r[2])
+    return "%s %s %s" % (_txt(r[0])[:70], SYM[r[1]], _txt(r[2])[:70])
+
+
+def want_relations(rep, rule, key, rels, wants, at, what):
+    """wants: [(a-substring, op, b-substring-or-int)]; every one must be among `rels` (orientation-insensitive)"""
+    missing = []
+    for a_sub, op, b_want in wants:
+        def ap(x, a_sub=a_sub):
+            return a_sub in _txt(x)
+        def bp(x, b_want=b_want):
+            if isinstance(b_want, int):
+                return x[0] == "c" and x[1] == b_want
+            return b_want in _txt(x)
+        if op == "bool":
+            ok = any(r[0] == "bool" and a_sub in _txt(r[1]) and r[2] == b_want for r in rels)
+        else:
+            ok = has_relation(rels, ap, op, bp)
+        if not ok:
+            missing.append("%s %s %s" % (a_sub, SYM.get(op, "is"), b_want))
+    rep.ob(rule, key, not missing, "%s: %s" % (what, "; ".join(rel_text(r) for r in rels[:4])) if not missing else
+           "%s must hold under `%s`, found: %s" % (what, "`, `".join(missing), "; ".join(rel_text(r) for r in rels[:5]) or "nothing"), at)
+    return not missing
